@@ -36,7 +36,8 @@ META = {
         "current_node_context manager) to the sites that attach it; each receiver must be self.document, a value of the heading "
         "level map - every writer of that map (dict literal/comprehension, dict.fromkeys, copies, item stores, parameters followed "
         "to their callers) is shown to store only document/section values - or a node under a dominating "
-        "isinstance(..., document|section) test (also behind a one-return helper). "
+        "isinstance(..., document|section) test (also `x.tagname in ('document', 'section')`, negated forms with early return, or a "
+        "one-return helper; tests that only read attributes such as .children of the parent say nothing about its kind and are ignored). "
         "R2: the tgroup `cols`, the number of colspec nodes and the header row rendered into thead reduce to one symbolic length; "
         "the tgroup/colspec code, the thead/tbody row rendering and the per-cell code are followed into private helpers of "
         "render_table / render_table_row (parameters stand for the call's arguments); every row token is rendered once; exactly "
@@ -51,13 +52,19 @@ META = {
         "R4: a manually numbered footnote gets its label as first possible child, an auto footnote is registered with "
         "note_autofootnote instead (docutils inserts the label at index 0), never both; the label text is the footnote's name; all "
         "registry calls are dominated by a not-a-duplicate test on the name (document.nameids, or the footnote registries the call "
-        "registers into; any(...) / loop / one-return helper forms); document.footnotes/autofootnotes/symbol_footnotes are only "
+        "registers into; any(...) / loop / one-return helper / membership in a set of the registered names, with the same "
+        "normalisation on both sides or none); document.footnotes/autofootnotes/symbol_footnotes are only "
         "reordered by MyST code, never filtered, truncated or emptied. "
         "R5: in transforms.py / myst_refs.py an existing node (loop variable over the tree) is re-attached only after being removed "
         "from its old parent, at most once; children moved out of a node (X.children, followed through helpers) are moved at most "
         "once per path and the old owner is replaced/removed on every later path; package-wide: a message node that "
         "create_warning(append_to=) already attached is not attached again by the function or by a caller that attaches the "
-        "returned collection; a node object built outside a loop is not attached inside the loop without being rebuilt. "
+        "returned collection; a node object built outside a loop is not attached inside the loop without being rebuilt (also when "
+        "it is collected in a list that is later put into a node, or attached by a nested function called from the loop, which "
+        "cannot rebind the enclosing local); `.children` / `.parent` of nodes are never written directly (only through "
+        "Element.append/insert/extend/+=/replace/slice assignment, which keep .parent in step; emptying a child list is allowed); "
+        "a node, or the (object, messages) result of docutils' directive/role lookup (shape re-read from the docutils source), that "
+        "is stored in a container on self is not read back on a cache hit and attached. "
         "R6: the first child a new section can receive, on every path, is its nodes.title (interprocedural may-append summary: "
         "direct appends, note_*_target(_, msgnode), create_warning(append_to=), becoming the current node; parameter guards of "
         "helpers evaluated against the call's literal arguments). "
@@ -73,7 +80,7 @@ META = {
         "content model of nodes produced by third-party directives/roles or by docutils/Sphinx transforms; whether nodes rendered "
         "into a root that is handed to another function really end up in the tree (R8 only flags roots that are provably just read as text; C02.R2 decides the attach-once discipline of render methods); table rows built "
         "by docutils' own Body.build_table_row, to which the state mock delegates; backrefs/refids assigned later by docutils' "
-        "Footnotes transform; anything that depends on run-time values rather than on the shape of the code"
+        "Footnotes transform; recursion depth on pathologically nested input; anything that depends on run-time values rather than on the shape of the code"
     ),
     "trusted_base": [
         "CPython ast",
@@ -415,6 +422,17 @@ def _current_node_writers(corpus: Corpus) -> set[str]:
     return corpus.cache("c03-current-node-writers", compute)
 
 
+_FLIP = {ast.NotIn: ast.In, ast.NotEq: ast.Eq, ast.IsNot: ast.Is}
+
+
+def _flip_compare(t: ast.expr) -> ast.expr | None:
+    """`a not in b` / `a != b` / `a is not b` being false is `a in b` / `a == b` / `a is b` being true."""
+    if isinstance(t, ast.Compare) and len(t.ops) == 1 and type(t.ops[0]) in _FLIP:
+        new = ast.Compare(left=t.left, ops=[_FLIP[type(t.ops[0])]()], comparators=t.comparators)
+        return ast.copy_location(new, t)
+    return None
+
+
 def _structural_test(t: ast.expr, fi: FunctionInfo, recv: str, depth: int = 0) -> str:
     """'yes' if ``t`` being true implies recv is a document/section; 'no' if it says nothing of the kind;
     'unknown' if it mentions the receiver in a form that is not understood."""
@@ -427,6 +445,13 @@ def _structural_test(t: ast.expr, fi: FunctionInfo, recv: str, depth: int = 0) -
         sides = {unparse(t.left), unparse(t.comparators[0])}
         if recv in sides and "self.document" in sides:
             return "yes"
+    if isinstance(t, ast.Compare) and len(t.ops) == 1 and unparse(t.left) == f"{recv}.tagname" and isinstance(t.ops[0], (ast.In, ast.Eq)):
+        # docutils: tagname is the class name
+        c = t.comparators[0]
+        vals = _literal_container(c) if isinstance(t.ops[0], ast.In) else ([c.value] if isinstance(c, ast.Constant) else None)
+        if vals is None:
+            return "unknown"
+        return "yes" if set(vals) <= {"document", "section"} else "no"
     if isinstance(t, ast.BoolOp) and isinstance(t.op, ast.And):
         rs = [_structural_test(v, fi, recv, depth) for v in t.values]
         if "yes" in rs:
@@ -485,9 +510,23 @@ def _has_text(recv: str, text: str) -> bool:
     return re.search(r"(?<![\w.])" + re.escape(recv) + r"(?!\w)", text) is not None
 
 
+def _about(t: ast.expr, recv: str) -> bool:
+    """Does the test read the node ``recv`` itself (its type/identity), not merely one of its attributes such as
+    `.children` / `.parent` (which say nothing about what kind of node it is)?"""
+    for n in ast.walk(t):
+        if isinstance(n, (ast.Attribute, ast.Name, ast.Subscript)) and unparse(n) == recv:
+            p_ = parent(n)
+            if isinstance(p_, ast.Attribute) and p_.value is n and p_.attr not in ("tagname", "__class__"):
+                continue
+            if isinstance(p_, ast.Subscript) and p_.value is n:
+                continue
+            return True
+    return False
+
+
 def _mentions(t: ast.expr, fi: FunctionInfo, recv: str, depth: int = 0) -> bool:
     if _has_text(recv, unparse(t)):
-        return True
+        return _about(t, recv)
     for c in ast.walk(t):
         if isinstance(c, ast.Call) and isinstance(c.func, ast.Attribute) and unparse(c.func.value) == "self" and recv.startswith("self."):
             hp = _helper_predicate(fi, c)
@@ -519,8 +558,11 @@ def _guard_status(corpus: Corpus, fi: FunctionInfo, at: ast.AST, recv: str) -> t
             if not _mentions(t, fi, recv):
                 continue
             if not pol:
-                unknown = unknown or f"negated test `{short(t, 60)}`"
-                continue
+                flipped = _flip_compare(t)
+                if flipped is None:
+                    unknown = unknown or f"negated test `{short(t, 60)}`"
+                    continue
+                t = flipped
             r = _structural_test(t, fi, recv)
             if r == "yes":
                 # the guard must still describe the receiver at the attach site
@@ -1037,6 +1079,39 @@ def _dup_test(t: ast.expr, pol: bool, names_src: list[str], needed: set[str], fi
     `any(name in fn["names"] [+ fn["dupnames"]] for fn in document.<registry> + ...)` covering ``needed``."""
     if isinstance(t, ast.Compare) and len(t.ops) == 1 and isinstance(t.ops[0], (ast.In, ast.NotIn)) and unparse(t.left) in names_src and unparse(t.comparators[0]).endswith(".nameids"):
         return ("ok", "name not in document.nameids") if pol == isinstance(t.ops[0], ast.NotIn) else ("none", "")
+    if isinstance(t, ast.Compare) and len(t.ops) == 1 and isinstance(t.ops[0], (ast.In, ast.NotIn)) and fi is not None:
+        # `f(name) in known` / `name in known`, known = {f(n) for fn in <registries> for n in fn["names"] + ...}
+        left, norm_l = t.left, None
+        if isinstance(left, ast.Call) and len(left.args) == 1 and not left.keywords and unparse(left.args[0]) in names_src:
+            left, norm_l = left.args[0], unparse(t.left.func)
+        comp = t.comparators[0]
+        if isinstance(comp, ast.Name):
+            comp = _single_value(fi, comp.id) or comp
+        if isinstance(comp, ast.Call) and dotted(comp.func) in ("set", "frozenset", "list", "tuple") and len(comp.args) == 1:
+            comp = comp.args[0]
+        if unparse(left) in names_src and isinstance(comp, (ast.SetComp, ast.ListComp, ast.GeneratorExp)) and len(comp.generators) == 2 and not any(g_.ifs for g_ in comp.generators):
+            g0, g1 = comp.generators
+            if isinstance(g0.target, ast.Name) and isinstance(g1.target, ast.Name):
+                elt, norm_r = comp.elt, None
+                if isinstance(elt, ast.Call) and len(elt.args) == 1 and not elt.keywords:
+                    elt, norm_r = elt.args[0], unparse(comp.elt.func)
+                looked = {x.slice.value for x in ast.walk(g1.iter) if isinstance(x, ast.Subscript) and isinstance(x.value, ast.Name) and x.value.id == g0.target.id and isinstance(x.slice, ast.Constant)}
+                if isinstance(elt, ast.Name) and elt.id == g1.target.id and "names" in looked:
+                    if pol != isinstance(t.ops[0], ast.NotIn):
+                        return "none", ""
+                    it = g0.iter
+                    hops = 0
+                    while isinstance(it, ast.Name) and hops < 3:
+                        v = _single_value(fi, it.id)
+                        if v is None:
+                            return "unknown", f"`{it.id}` (searched by the duplicate test) is not a singly assigned local"
+                        it, hops = v, hops + 1
+                    regs = {x.attr for x in ast.walk(it) if isinstance(x, ast.Attribute) and x.attr in FOOTNOTE_REGISTRIES}
+                    if norm_l != norm_r:
+                        return "weak", f"the duplicate test `{short(t, 60)}` normalises only one side ({norm_l or 'raw name'} vs {norm_r or 'raw names'}): an exact duplicate can be missed"
+                    if needed <= regs:
+                        return "ok", f"the name{' (normalised by ' + norm_l + ')' if norm_l else ''} is not among the names of the registered footnotes ({', '.join(sorted(regs))})"
+                    return "weak", f"the duplicate test only searches document.{'/'.join(sorted(regs)) or '?'} but the footnote is registered in document.{'/'.join(sorted(needed - regs))}"
     if isinstance(t, ast.Call) and dotted(t.func) in ("any", "all") and len(t.args) == 1 and isinstance(t.args[0], (ast.GeneratorExp, ast.ListComp)) and any(nm in unparse(t) for nm in names_src):
         ge = t.args[0]
         if dotted(t.func) != "any" or len(ge.generators) != 1:
@@ -2233,42 +2308,256 @@ def _is_node_valued(corpus: Corpus, fi: FunctionInfo, v: ast.expr | None) -> boo
     return False
 
 
+def _is_plain_container(fi: FunctionInfo, recv: ast.expr) -> bool:
+    rb = _single_value(fi, recv.id, ignore_aug=True) if isinstance(recv, ast.Name) else None
+    return isinstance(rb, (ast.List, ast.Dict, ast.Set)) or (isinstance(rb, ast.Call) and dotted(rb.func) in ("list", "dict", "set"))
+
+
+def _list_attached_later(fi: FunctionInfo, name: str) -> ast.AST | None:
+    """Is the plain list ``name`` later put into a node (`node[:] = name`, `node += name`, `node.extend(name)`)?"""
+    for n in fi.local_nodes():
+        if isinstance(n, ast.Assign) and isinstance(n.value, ast.Name) and n.value.id == name:
+            for t in n.targets:
+                if isinstance(t, ast.Subscript) and isinstance(t.slice, ast.Slice) and not _is_plain_container(fi, t.value):
+                    return n
+    for node, recv, vals, how in _attach_events(fi):
+        if how in ("extend", "+=") and not _is_plain_container(fi, recv) and any(isinstance(v, ast.Name) and v.id == name for v in vals):
+            return node
+    return None
+
+
+def _loop_attach_events(fi: FunctionInfo) -> list[tuple[ast.AST, str, str]]:
+    """(node in fi, attached local name, description) for attaches of a local of ``fi`` that execute inside a loop of
+    ``fi`` - directly, into a list that is later put into a node, or inside a nested function called from the loop
+    (a closure cannot rebind the enclosing local)."""
+    out = []
+
+    def in_loop(n):
+        return any(isinstance(a, (ast.For, ast.While)) for a in _ancestors(n))
+
+    def events_of(f: FunctionInfo):
+        for node, recv, vals, how in _attach_events(f):
+            if how not in ("append", "insert", "extend", "+=", "replace", "replace_self"):
+                continue
+            if _is_plain_container(f, recv):
+                owner = f if _bindings(f, recv.id) else fi
+                if not (isinstance(recv, ast.Name) and _list_attached_later(owner, recv.id) is not None):
+                    continue
+            elif isinstance(recv, ast.Name) and not _bindings(f, recv.id) and f is not fi and _is_plain_container(fi, recv):
+                if _list_attached_later(fi, recv.id) is None:
+                    continue
+            for v in vals:
+                if isinstance(v, ast.Name) and not _shadowed(v):
+                    yield node, v.id
+
+    for node, name in events_of(fi):
+        if in_loop(node) and name not in fi.params and _bindings(fi, name):
+            out.append((node, name, f"`{short(node, 60)}`"))
+    # nested functions called from a loop of fi
+    corpus_mod = fi.module
+    for q, g in corpus_mod.functions.items():
+        if g.parent_func is not fi or g.is_lambda:
+            continue
+        inner = [(node, name) for node, name in events_of(g) if name not in g.params and not _bindings(g, name) and _bindings(fi, name)]
+        if not inner:
+            continue
+        if any(isinstance(n, ast.Nonlocal) for n in g.local_nodes()):
+            continue  # may rebind: not modelled
+        for c in fi.local_nodes():
+            if isinstance(c, ast.Call) and isinstance(c.func, ast.Name) and c.func.id == g.name and in_loop(c):
+                for node, name in inner:
+                    out.append((c, name, f"`{short(c, 30)}` -> `{short(node, 50)}` in the nested function {g.name} (which cannot rebind `{name}`)"))
+    return out
+
+
 def _built_once_attached_in_loop(corpus: Corpus, rep: Report) -> None:
     """A node object built before a loop and attached inside it (without being rebuilt in the loop) is attached
     once per iteration: the same object ends up in several child lists / several times in one."""
-    n = 0
     for fi in corpus.all_functions():
         if fi.is_lambda or fi.module.name.endswith("._docs"):
             continue
-        for node, recv, vals, how in _attach_events(fi):
-            loops = [a for a in _ancestors(node) if isinstance(a, (ast.For, ast.While))]
-            if not loops:
+        seen = set()
+        for node, name, desc in _loop_attach_events(fi):
+            if (id(node), name) in seen:
                 continue
-            rb = _single_value(fi, recv.id, ignore_aug=True) if isinstance(recv, ast.Name) else None
-            if isinstance(rb, (ast.List, ast.Dict, ast.Set)) or (isinstance(rb, ast.Call) and dotted(rb.func) in ("list", "dict", "set")):
-                continue  # a plain Python container
-            for v in vals:
-                if not isinstance(v, ast.Name) or _shadowed(v) or v.id in fi.params:
-                    continue
-                allb = [(b, val, idx) for b, val, idx in _bindings(fi, v.id) if not isinstance(b, ast.AugAssign)]
-                if not allb:
-                    continue
-                cfg = get_cfg(fi)
-                st = cfg.stmt_of(node)
-                rebinds = {cfg.stmt_of(b) for b, _, _ in allb}
-                # only the bindings that can reach the attach site matter
-                bs = [(b, val) for b, val, idx in allb if cfg.paths_avoiding(cfg.stmt_of(b), st, lambda x, me=cfg.stmt_of(b): x in rebinds and x is not me)]
-                if not bs or any(idx is not None for b, _, idx in allb if any(b is b2 for b2, _ in bs)) or not all(_is_node_valued(corpus, fi, val) for _, val in bs):
-                    continue
-                n += 1
-                again = any(cfg.paths_avoiding(s_, st, lambda x: x in rebinds) for s_ in cfg.succ.get(st, []) if s_ not in rebinds)
-                key = f"{fi.fq}|node built once, attached once|{short(node, 70)}"
-                site = fi.module.site(node)
+            seen.add((id(node), name))
+            allb = [(b, val, idx) for b, val, idx in _bindings(fi, name) if not isinstance(b, ast.AugAssign)]
+            if not allb:
+                continue
+            cfg = get_cfg(fi)
+            st = cfg.stmt_of(node)
+            rebinds = {cfg.stmt_of(b) for b, _, _ in allb}
+            # only the bindings that can reach the attach site matter
+            bs = [(b, val) for b, val, idx in allb if cfg.paths_avoiding(cfg.stmt_of(b), st, lambda x, me=cfg.stmt_of(b): x in rebinds and x is not me)]
+            if not bs or any(idx is not None for b, _, idx in allb if any(b is b2 for b2, _ in bs)) or not all(_is_node_valued(corpus, fi, val) for _, val in bs):
+                continue
+            again = any(cfg.paths_avoiding(s_, st, lambda x: x in rebinds) for s_ in cfg.succ.get(st, []) if s_ not in rebinds)
+            key = f"{fi.fq}|node built once, attached once|{short(node, 70)}"
+            site = fi.module.site(node)
+            rep.saw_function(fi.fq)
+            if again:
+                rep.violation("C03.R5", key, site, f"`{name}` is built by `{short(bs[0][1], 50)}` and attached by {desc} on every iteration without being rebuilt in between: the same node object is listed several times / under several parents")
+            else:
+                rep.ok("C03.R5", key, site, f"`{name}` is rebuilt before every attach")
+
+
+def _is_token_expr(fi: FunctionInfo, e: ast.expr) -> bool:
+    """Is the expression rooted in a parameter annotated as a markdown-it token / syntax tree node?"""
+    r = _root_name(e)
+    if r is None:
+        return False
+    f: FunctionInfo | None = fi
+    while f is not None:
+        a = getattr(f.node, "args", None)
+        for x in (a.posonlyargs + a.args + a.kwonlyargs) if a else []:
+            if x.arg == r and x.annotation is not None and any(w in unparse(x.annotation) for w in ("SyntaxTreeNode", "Token")):
+                return True
+        f = f.parent_func
+    return False
+
+
+def _child_list_writes(corpus: Corpus, rep: Report) -> None:
+    """docutils keeps `.parent` in step with the child lists only inside Element.append/insert/extend/+=/replace/
+    __setitem__: a direct write to `x.children` (or `x.parent`) of a node leaves the two out of step."""
+    found = 0
+    scanned = 0
+    for fi in corpus.all_functions():
+        if fi.is_lambda or fi.module.name.endswith(("._docs", ".parse_html")):
+            continue
+        scanned += 1
+        for n in fi.local_nodes():
+            hits: list[tuple[ast.AST, str]] = []
+            if isinstance(n, (ast.Assign, ast.AugAssign, ast.AnnAssign)):
+                tgts = n.targets if isinstance(n, ast.Assign) else [n.target]
+                flat = [x for t in tgts for x in ([t] if not isinstance(t, (ast.Tuple, ast.List)) else t.elts)]
+                vals = None
+                if isinstance(n, ast.Assign) and len(tgts) == 1 and isinstance(tgts[0], (ast.Tuple, ast.List)) and isinstance(n.value, (ast.Tuple, ast.List)) and len(n.value.elts) == len(tgts[0].elts):
+                    vals = n.value.elts
+                for i, t in enumerate(flat):
+                    base = t.value if isinstance(t, ast.Subscript) else t
+                    if isinstance(base, ast.Attribute) and base.attr == "children" and not _is_token_expr(fi, base.value) and unparse(base.value) != "self":
+                        v = vals[i] if vals is not None else getattr(n, "value", None)
+                        if isinstance(t, ast.Attribute) and isinstance(v, (ast.List, ast.Tuple)) and not v.elts:
+                            continue  # emptying a child list
+                        hits.append((t, f"`{short(n, 60)}` writes the child list of `{unparse(base.value)}` directly"))
+                    elif isinstance(t, ast.Attribute) and t.attr == "parent" and unparse(t.value) != "self" and not _is_token_expr(fi, t.value):
+                        hits.append((t, f"`{short(n, 60)}` sets `.parent` by hand"))
+            elif isinstance(n, ast.Call) and isinstance(n.func, ast.Attribute) and n.func.attr in ("append", "extend", "insert") and isinstance(n.func.value, ast.Attribute) and n.func.value.attr == "children" and not _is_token_expr(fi, n.func.value.value) and unparse(n.func.value.value) != "self":
+                hits.append((n, f"`{short(n, 60)}` mutates the child list of `{unparse(n.func.value.value)}` directly"))
+            for t, why in hits:
+                found += 1
                 rep.saw_function(fi.fq)
-                if again:
-                    rep.violation("C03.R5", key, site, f"`{v.id}` is built by `{short(bs[0][1], 50)}` outside the loop and attached on every iteration without being rebuilt: the same node object is listed several times / under several parents")
-                else:
-                    rep.ok("C03.R5", key, site, f"`{v.id}` is rebuilt before every attach")
+                rep.violation("C03.R5", f"{fi.fq}|child list changed only through the docutils API|{short(n, 70)}", fi.module.site(n), f"{why}, bypassing Element.append()/setup_child(): the nodes' .parent no longer names the node that lists them")
+    if not found:
+        rep.ok("C03.R5", "package|child lists and .parent of nodes are changed only through the docutils API", "myst_parser", f"no direct write in {scanned} functions")
+
+
+NODE_BEARING_LOOKUPS = {
+    # docutils lookups returning (object, [system_message, ...]); re-verified against the sibling source
+    "docutils.parsers.rst.directives.directive": ("docutils/parsers/rst/directives/__init__.py", "directive"),
+    "docutils.parsers.rst.roles.role": ("docutils/parsers/rst/roles.py", "role"),
+}
+
+
+def _lookup_returns_messages(corpus: Corpus, rel: str, fname: str) -> bool:
+    def compute():
+        m = corpus.sibling(rel)
+        f = m.functions.get(fname)
+        if f is None:
+            return False
+        lists = {t.id for n in ast.walk(f.node) if isinstance(n, ast.Assign) and isinstance(n.value, ast.List) for t in n.targets if isinstance(t, ast.Name)}
+        fed = {n.func.value.id for n in ast.walk(f.node) if isinstance(n, ast.Call) and isinstance(n.func, ast.Attribute) and n.func.attr == "append" and isinstance(n.func.value, ast.Name) and n.func.value.id in lists and n.args and (isinstance(n.args[0], ast.Call) or isinstance(n.args[0], ast.Name))}
+        return any(isinstance(n, ast.Return) and isinstance(n.value, ast.Tuple) and len(n.value.elts) == 2 and isinstance(n.value.elts[1], ast.Name) and n.value.elts[1].id in fed for n in ast.walk(f.node))
+
+    return corpus.cache(("c03-lookup-msgs", rel, fname), compute)
+
+
+def _cached_node_results(corpus: Corpus, rep: Report) -> None:
+    """A node (or a lookup result that carries system_message nodes) kept in an attribute of `self` outlives the
+    use it was made for; reading it back and attaching it shares one node object between several places."""
+    found = 0
+    for fi in corpus.all_functions():
+        if fi.is_lambda or fi.module.name.endswith("._docs"):
+            continue
+        for n in fi.local_nodes():
+            if not isinstance(n, (ast.Assign, ast.AnnAssign)) or n.value is None or not isinstance(n.value, ast.Call):
+                continue
+            tgts = n.targets if isinstance(n, ast.Assign) else [n.target]
+            for t in tgts:
+                base = t.value if isinstance(t, ast.Subscript) else t
+                if not (isinstance(base, ast.Attribute) and unparse(base.value) == "self"):
+                    continue
+                res = fi.module.resolve(dotted(n.value.func) or "")
+                bearing_idx = None
+                if res in NODE_BEARING_LOOKUPS:
+                    if not _lookup_returns_messages(corpus, *NODE_BEARING_LOOKUPS[res]):
+                        continue
+                    bearing_idx = 1
+                elif not (_is_node_valued(corpus, fi, n.value) and isinstance(t, ast.Subscript)):
+                    continue  # a plain `self.x = nodes.y()` is the renderer's own state, not a cache
+                attr = base.attr
+                found += 1
+                _judge_cache_reads(corpus, rep, fi, n, attr, bearing_idx)
+    if not found:
+        rep.ok("C03.R5", "package|no node-bearing result is kept in a container on self", "myst_parser", "no store of a node / (object, messages) lookup result into an attribute of self")
+
+
+def _judge_cache_reads(corpus: Corpus, rep: Report, sfi: FunctionInfo, store: ast.AST, attr: str, idx: int | None) -> None:
+    g = get_callgraph(corpus)
+    key = f"{sfi.fq}|node-bearing result cached in self.{attr}|{short(store, 60)}"
+    site = sfi.module.site(store)
+    rep.saw_function(sfi.fq)
+    bad = None
+    for fi in corpus.all_functions():
+        if fi.is_lambda or fi.cls is None or sfi.cls is None:
+            continue
+        if fi.cls.fq != sfi.cls.fq and sfi.cls not in corpus.mro(fi.cls) and fi.cls not in corpus.mro(sfi.cls):
+            continue
+        for r in fi.local_nodes():
+            if not (isinstance(r, ast.Attribute) and r.attr == attr and unparse(r.value) == "self" and isinstance(r.ctx, ast.Load)):
+                continue
+            e: ast.AST = r
+            while isinstance(parent(e), ast.Subscript) and parent(e).value is e and isinstance(parent(e).ctx, ast.Load):
+                e = parent(e)
+            p_ = parent(e)
+            names: list[str] = []
+            if isinstance(p_, ast.Assign) and p_.value is e:
+                for t in p_.targets:
+                    if isinstance(t, ast.Name):
+                        names.append(t.id)
+                    elif isinstance(t, (ast.Tuple, ast.List)):
+                        for i, x in enumerate(t.elts):
+                            if isinstance(x, ast.Name) and (idx is None or i == idx):
+                                names.append(x.id)
+            for nm in list(names):
+                for a2 in fi.local_nodes():
+                    if isinstance(a2, ast.Assign) and isinstance(a2.value, ast.Name) and a2.value.id == nm:
+                        for t2 in a2.targets:
+                            if isinstance(t2, (ast.Tuple, ast.List)):
+                                names.extend(x.id for i, x in enumerate(t2.elts) if isinstance(x, ast.Name) and (idx is None or i == idx))
+            for nm in names:
+                # the read must be able to happen without the store having just run (a real cache hit)
+                if fi.fq == sfi.fq:
+                    cfg = get_cfg(fi)
+                    if not cfg.paths_avoiding(ENTRY, cfg.stmt_of(r), lambda x: x is cfg.stmt_of(store)):
+                        continue
+                hit = _value_attached_in(fi, nm)
+                if hit is not None:
+                    bad = (fi, r, f"`{short(hit, 50)}` in {fi.qualname}")
+                ret = _returned_with(fi, nm)
+                if ret is not None and bad is None:
+                    for cfi, call in g.callers().get(fi.fq, []):
+                        if cfi.is_lambda:
+                            continue
+                        ev = [x for x in _attach_events(cfi) if any(y is call for v in x[2] for y in ast.walk(v))]
+                        pc = parent(call)
+                        h2 = ev[0][0] if ev else (_value_attached_in(cfi, pc.targets[0].id) if isinstance(pc, ast.Assign) and len(pc.targets) == 1 and isinstance(pc.targets[0], ast.Name) else None)
+                        if h2 is not None:
+                            bad = (fi, r, f"`{short(h2, 50)}` in {cfi.qualname} (through the value returned by {fi.qualname})")
+    if bad:
+        rep.violation("C03.R5", key, site, f"the stored result carries node objects; `{short(parent(bad[1]) if isinstance(parent(bad[1]), ast.Subscript) else bad[1], 40)}` reads it back on a cache hit and the nodes are attached by {bad[2]}: every use after the first inserts the very same node object again")
+    else:
+        rep.ok("C03.R5", key, site, "the cached nodes are never attached from the cache")
 
 
 def _attach_and_return(corpus: Corpus, rep: Report) -> None:
@@ -2332,7 +2621,7 @@ def _attach_and_return(corpus: Corpus, rep: Report) -> None:
 
 @rule("C03.R5")
 def r5_single_parent(corpus: Corpus, rep: Report, tier: str):
-    rep.rule("C03.R5", "an existing node is re-attached only after being detached, exactly once; children are moved out of a node at most once per path and the old owner is discarded on every path; a node already attached by create_warning(append_to=) is not attached again; a node built outside a loop is not attached inside it without being rebuilt")
+    rep.rule("C03.R5", "an existing node is re-attached only after being detached, exactly once; children are moved out of a node at most once per path and the old owner is discarded on every path; a node already attached by create_warning(append_to=) is not attached again; a node built outside a loop is not attached inside it without being rebuilt; child lists are changed only through the docutils API; node-bearing results cached on self are not attached from the cache")
     mv = _Moves(corpus)
     n_inst = 0
     for modname in SURGERY_MODULES:
@@ -2439,6 +2728,8 @@ def r5_single_parent(corpus: Corpus, rep: Report, tier: str):
                     rep.ok("C03.R5", key, site, "every path after the move replaces/removes the old owner")
     _attach_and_return(corpus, rep)
     _built_once_attached_in_loop(corpus, rep)
+    _child_list_writes(corpus, rep)
+    _cached_node_results(corpus, rep)
     rep.expect_min("C03.R5", 3, "CollectFootnotes re-attach; children moves in ResolveAnchorIds.apply (2) and the Sphinx resolver (9 judged instances on the pinned tree)")
 
 
@@ -2648,6 +2939,15 @@ def _splice_many(src: str, edits: list[tuple[ast.AST, str]]) -> str:
     return src
 
 
+def _closure_mutant(m, lp: ast.For, iff: ast.If, helper_def: str) -> str:
+    """The loop's close-the-segment block becomes a call of a nested helper defined before the loop."""
+    src = splice(m.src, iff, "_close_segment()")  # iff lies inside lp: do it first (later offsets only)
+    tree_lp_text = ast.get_source_segment(src, lp)  # offsets of lp's start are unchanged by the inner edit
+    start = sum(len(l.encode("utf8")) for l in src.splitlines(keepends=True)[: lp.lineno - 1]) + lp.col_offset
+    b = src.encode("utf8")
+    return (b[:start] + helper_def.encode("utf8") + b[start:]).decode("utf8")
+
+
 def mutants(corpus: Corpus):
     out: list = []
     base = corpus.mod("mdit_to_docutils.base")
@@ -2779,6 +3079,42 @@ def mutants(corpus: Corpus):
         add("c03-colspec-built-once-for-all-columns", "C03.R5", base, lp, first + "\n" + ind + f"for {unparse(lp.target)} in {unparse(lp.iter)}:" + rest, "node built once")
     else:
         out.append(("c03-colspec-built-once-for-all-columns", "colspec loop not found"))
+    # ---- R5 (round 6): collectors/closures, direct child-list writes, cached node-bearing lookups
+    mk = corpus.mod("mocking")
+    f = mk.func("MockState._nest_line_block_segment")
+    lp = find_node(f, lambda n: isinstance(n, ast.For))
+    reset = find_node(f, lambda n: isinstance(n, ast.Assign) and unparse(n.value) == "nodes.line_block()" and any(isinstance(a, ast.For) for a in _ancestors(n)))
+    add("c03-line-block-segment-not-reset", "C03.R5", mk, reset, "pass", "node built once")
+    iff = find_node(f, lambda n: isinstance(n, ast.If) and unparse(n.test) == "len(new_block)" and any(isinstance(a, ast.For) for a in _ancestors(n)))
+    if lp is not None and iff is not None and reset is not None:
+        ind = _indent(mk, lp)
+        body = "".join(f"\n{ind}        " + _stmt_text(mk, x) for x in iff.body if x is not reset)
+        helper_def = f"def _close_segment():\n{ind}    if {unparse(iff.test)}:{body}\n{ind}"
+        out.append(Mutant("c03-line-block-close-moved-into-closure", "C03.R5", mk.rel, _closure_mutant(mk, lp, iff, helper_def), expect="nested function"))
+    else:
+        out.append(("c03-line-block-close-moved-into-closure", "line-block segment loop not found"))
+    f = tf.func("ResolveAnchorIds.apply")
+    st = find_node(f, lambda n: isinstance(n, ast.AugAssign) and unparse(n.value) == "refnode.children")
+    add("c03-link-text-child-list-assigned", "C03.R5", tf, st, f"{unparse(st.target)}.children = refnode.children" if st is not None else "", "child list changed only through the docutils API")
+    f = tf.func("CollectFootnotes.apply")
+    st = find_node(f, lambda n: isinstance(n, ast.AugAssign) and unparse(n.target) == "self.document" and unparse(n.value) == "footnote")
+    add("c03-footnote-appended-to-children-list", "C03.R5", tf, st, "self.document.children.append(footnote)", "child list changed only through the docutils API")
+    f = base.func("DocutilsRenderer.run_directive")
+    st = find_node(f, lambda n: isinstance(n, (ast.Assign, ast.AnnAssign)) and isinstance(n.value, ast.Call) and unparse(n.value.func) == "directives.directive")
+    if st is not None:
+        ind = _indent(base, st)
+        tgt = unparse(st.target if isinstance(st, ast.AnnAssign) else st.targets[0])
+        call = _stmt_text(base, st.value)
+        add("c03-directive-lookup-result-cached", "C03.R5", base, st, f"cache = self.__dict__.setdefault('_directive_cache', {{}})\n{ind}if name not in cache:\n{ind}    self._directive_cache[name] = {call}\n{ind}{tgt} = self._directive_cache[name]", "node-bearing result cached")
+    else:
+        out.append(("c03-directive-lookup-result-cached", "directives.directive lookup not found"))
+    f = base.func("DocutilsRenderer.render_myst_role")
+    st = find_node(f, lambda n: isinstance(n, ast.Assign) and isinstance(n.value, ast.Call) and unparse(n.value.func) == "roles.role")
+    if st is not None:
+        ind = _indent(base, st)
+        add("c03-role-lookup-result-cached", "C03.R5", base, st, f"if name not in self.__dict__.setdefault('_role_cache', {{}}):\n{ind}    self._role_cache[name] = {_stmt_text(base, st.value)}\n{ind}{unparse(st.targets[0])} = self._role_cache[name]", "node-bearing result cached")
+    else:
+        out.append(("c03-role-lookup-result-cached", "roles.role lookup not found"))
     # ---- R8: rendering into a node that is only read as text / never attached
     f = base.func("DocutilsRenderer.render_image")
     st = find_node(f, lambda n: isinstance(n, ast.Assign) and isinstance(n.value, ast.Call) and unparse(n.value.func) == "self.renderInlineAsText")
